@@ -2,6 +2,7 @@ package scen
 
 import (
 	"bytes"
+	gogotypes "github.com/cosmos/gogoproto/types"
 	"time"
 
 	"encoding/json"
@@ -101,11 +102,13 @@ func q17GenesisBuild() []*explore.Action {
 	acts = append(acts,
 		class(A, "C01"), class(A2, "C02"), class(B, "C03"), class(A, "C04"),
 		Msg("seed:add-issuer C01<-A2", &basetypes.MsgUpdateClassIssuers{Admin: a, ClassId: "C01", AddIssuers: []string{a2}}),
-		proj(A, "C01", "r1"), // C01-001
-		proj(A, "C01", "r"),  // C01-002 -> C01-0011
-		proj(A2, "C02", "r"), // C02-001 -> C011-001
-		proj(B, "C03", ""),   // C03-001 -> C10-001
-		proj(A, "C04", "r1"), // C04-001 -> C100-001
+		proj(A, "C01", "r1"),  // C01-001
+		proj(A, "C01", "r"),   // C01-002 -> C01-0011
+		proj(A2, "C02", "r"),  // C02-001 -> C011-001
+		proj(B, "C03", ""),    // C03-001 -> C10-001
+		proj(A, "C04", "r1"),  // C04-001 -> C100-001
+		proj(A, "C04", "r1 "), // the same reference id with a trailing blank: another reference id
+		proj(A2, "C02", " "),  // a reference id that is nothing but a blank
 		CreateBatch(A, "C01-001", date(2020, 1, 1), date(2021, 1, 1), true, nil, Iss(B, "10", "1"), Iss(C, "5", "0.5")),
 		CreateBatch(A2, "C01-001", date(2021, 1, 1), date(2022, 1, 1), false, nil, Iss(B, "3", "0")),
 		CreateBatch(A, "C01-002", date(2020, 1, 1), date(2021, 1, 1), true, nil, Iss(B, "4", "0"), Iss(C, "2", "0")),
@@ -124,6 +127,11 @@ func q17GenesisBuild() []*explore.Action {
 		Msg("seed:basket EPO", &baskettypes.MsgCreate{Curator: b, Name: "EPO", DisableAutoRetire: true, CreditTypeAbbrev: "C", AllowedClasses: []string{"C04"},
 			DateCriteria: &baskettypes.DateCriteria{MinStartDate: gts(time.Unix(0, 0).UTC())}, Fee: sdk.NewCoins(coin("uregen", 10))}),
 		Put(B, "eco.uC.EPO", BC("C04-001-19700101-19710101-002", "1")),
+		// a window longer than a Go time.Duration can hold (300 years), and one with a sub-second part
+		Msg("seed:basket W300", &baskettypes.MsgCreate{Curator: a, Name: "W300", DisableAutoRetire: true, CreditTypeAbbrev: "C", AllowedClasses: []string{"C01"},
+			DateCriteria: &baskettypes.DateCriteria{StartDateWindow: &gogotypes.Duration{Seconds: 300 * 365 * 86400}}, Fee: sdk.NewCoins(coin("uregen", 10))}),
+		Msg("seed:basket WNS", &baskettypes.MsgCreate{Curator: b, Name: "WNS", DisableAutoRetire: true, CreditTypeAbbrev: "C", AllowedClasses: []string{"C01"},
+			DateCriteria: &baskettypes.DateCriteria{StartDateWindow: &gogotypes.Duration{Seconds: 86400, Nanos: 5}}, Fee: sdk.NewCoins(coin("uregen", 10))}),
 		Put(B, NCT, BC("C01-001-20200101-20210101-001", "2")),
 		Put(B, NCT, BC("C02-001-20200101-20210101-001", "1")),
 		Put(C, RCT, BC("C01-002-20200101-20210101-001", "1")),
